@@ -150,8 +150,13 @@ func Harness_C24_frame() {
 	// and the frame writer reproduces the frame
 	sink := comm.NewZeroCopySink(nil)
 	WriteMessage(sink, msg)
-	assert(len(sink.Bytes()) == common.MSG_HDR_LEN+int(length), "rewritten-frame-length")
-	if len(sink.Bytes()) == common.MSG_HDR_LEN+int(length) {
-		assert(bytesEq(sink.Bytes(), stream[:common.MSG_HDR_LEN+int(length)]), "rewritten-frame-equals-received")
+	// the decoder may leave trailing payload bytes unread (not flagged, see DESIGN C24): the rewritten
+	// payload must be a prefix of the received one, with the same magic and command
+	rl := len(sink.Bytes()) - common.MSG_HDR_LEN
+	assert(rl >= 0 && rl <= int(length), "rewritten-payload-not-longer")
+	if rl >= 0 && rl <= int(length) {
+		out := sink.Bytes()
+		assert(bytesEq(out[:16], stream[:16]), "rewritten-magic-and-command-equal")
+		assert(bytesEq(out[common.MSG_HDR_LEN:], pay[:rl]), "rewritten-payload-is-prefix-of-received")
 	}
 }
